@@ -18,7 +18,8 @@ func init() {
 				jobs = append(jobs,
 					j("VerifTrieSet", "3", "3", "3", "ab"),
 					j("VerifTrieSet", "3", "2", "2", "edge"),
-					j("VerifTrieSet", "4", "2", "2", "ab"))
+					j("VerifTrieSet", "4", "2", "2", "ab"),
+					j("VerifTrieSet", "4", "3", "3", "ab"))
 			}
 			jobs = append(jobs, Job{Prop: "C20", Pkg: "repl", Func: "VerifCompletion", Args: []string{"2", "2", "2"}})
 			jobs = append(jobs, Job{Prop: "C20", Pkg: "repl", Func: "VerifCompletion", Args: []string{"2", "2", "3"}})
@@ -41,7 +42,7 @@ func init() {
 		},
 		Budget:  map[string]time.Duration{"quick": 4 * time.Minute, "thorough": 40 * time.Minute},
 		Reach:   []string{"non-empty prefix result", "several completions", "completion with text after the cursor", "defined name probed", "undefined name probed"},
-		Bounds:  map[string]interface{}{"words": "<=3 inserted words of length 0..2 and 2 words of length 0..3 (thorough: 3 words of length 0..3, 4 of length 0..2), every insertion order", "registration": "10 sessions (definitions, functions, redefinitions, assignments rejected because the name is an extension or a bound constant, definitions inside functions / branches / loops, failing inputs, macros): after each, every probed name is offered exactly when it is a top-level binding, functions with ( and variables with a space", "cursor": "any position in a typed line of up to 3 bytes; the text after the cursor must be kept", "alphabets": "{a,b} and {a,0x00,0xff} (bytes symbolic under an alphabet assumption)", "query": "length 0..3"},
+		Bounds:  map[string]interface{}{"words": "<=3 inserted words of length 0..2 and 2 words of length 0..3 (thorough: 3 and 4 words of length 0..3, ~760 000 paths for the largest), every insertion order", "registration": "10 sessions (definitions, functions, redefinitions, assignments rejected because the name is an extension or a bound constant, definitions inside functions / branches / loops, failing inputs, macros): after each, every probed name is offered exactly when it is a top-level binding, functions with ( and variables with a space", "cursor": "any position in a typed line of up to 3 bytes; the text after the cursor must be kept", "alphabets": "{a,b} and {a,0x00,0xff} (bytes symbolic under an alphabet assumption)", "query": "length 0..3"},
 		Outside: []string{"words longer than 3 bytes, more than 4 words, bytes outside the two alphabets (each symbolic byte forks once per alphabet member in children[char])"},
 	})
 }
